@@ -114,3 +114,77 @@ class compute_block_id:
             for nb in itertools.product((1, 2, 3), repeat=len(ind)):
                 for m in [{}, {0: 0}, {0: 1, 1: 0}, {0: 2, 1: 1, 2: 0}, {1: 5}, {0: 4, 2: 3}]:
                     yield {"ind": ind, "idx_to_block": m, "numblocks": nb}
+
+
+# ---------------------------------------------------------------------------
+# C28: basic indexing refuses a non-trivial index on an axis of unknown size
+# ---------------------------------------------------------------------------
+SB = "dask_array/slicing/_basic.py"
+
+
+def _ext_ssi(ex, st, args, kwargs, node):
+    """SliceSlicesIntegers(x, index, flag): some expression (constructed only on the non-refusing path)"""
+    return ex.fresh_value("obj:Expr", "ssi")
+
+
+def _ssi_unknown(spec, chunk_types, index_types, unknown_axes):
+    @contract(f"{SB}::slice_slices_and_integers", spec=spec, props=["C28"])
+    class ssi_unknown:
+        """an index other than the full slice on an axis whose size is unknown is refused with ValueError; the full slice
+        (and any index on a known axis) is accepted"""
+        params = {"x": "obj:Arr", "index": index_types}
+        fields = {"Arr": {"chunks": chunk_types}, "Expr": {}}
+        result = "obj:Expr"
+        externals = {"SliceSlicesIntegers": _ext_ssi}
+
+        def _touches_unknown(index):
+            from pyvc.spec import SliceV, TupV
+            cs = []
+            for ax in unknown_axes:
+                ind = index.items[ax] if isinstance(index, TupV) else index[ax]
+                if isinstance(ind, SliceV):
+                    cs.append(S.Not(S.And(S.is_none(ind.start), S.is_none(ind.stop), S.is_none(ind.step))))
+                elif isinstance(ind, slice):
+                    cs.append(ind != slice(None, None, None))
+                else:
+                    cs.append(True)  # an integer is never the full slice
+            return S.Or(*cs) if cs else False
+
+        raises = {"ValueError": lambda x, index: ssi_unknown._touches_unknown(index)}
+
+        def requires(x, index):
+            return True
+
+        def ensures(result, x, index):
+            return {"accepted-only-when-unknown-axes-are-untouched": S.Not(ssi_unknown._touches_unknown(index))}
+
+        def call(fn, x, index):
+            # a real expression whose advertised chunks follow the NaN pattern of the record
+            import math
+            import numpy as np
+            import dask_array as da
+            pattern = x.get("chunks")
+            known = tuple(tuple(2 if (isinstance(c, float) and math.isnan(c)) else int(c) for c in ax) for ax in pattern)
+            base = da.ones(tuple(sum(ax) for ax in known), chunks=known)
+            arr = da.map_blocks(lambda b: b, base, chunks=pattern, dtype=base.dtype)
+            return fn(arr.expr, index)
+
+        def domain(tier, rng):
+            import math
+            from pyvc.concrete import Rec
+            nan = math.nan
+            pat = {"tup:(tup:nan,nan)": ((nan, nan),), "tup:(tup:int,int),(tup:int,nan)": ((2, 1), (3, nan)),
+                   "tup:(tup:nan),(tup:int,int)": ((nan,), (1, 2))}[chunk_types]
+            sl = [slice(None), slice(None, None, None), slice(0, None), slice(None, 2), slice(None, None, 1), slice(1, 2), slice(None, None, -1)]
+            kinds = [t.strip() for t in index_types[4:].split(",")]
+            import itertools
+            for combo in itertools.product(*[(sl if k == "slice" else [0, 1]) for k in kinds]):
+                yield {"x": Rec(chunks=pat), "index": tuple(combo)}
+
+    ssi_unknown.__name__ = "ssi_unknown_" + spec.replace("-", "_")
+    return ssi_unknown
+
+
+SSI1 = _ssi_unknown("nan-axis0-slice", "tup:(tup:nan,nan)", "tup:slice", [0])
+SSI3 = _ssi_unknown("nan-axis1-of-2", "tup:(tup:int,int),(tup:int,nan)", "tup:slice,slice", [1])
+SSI4 = _ssi_unknown("nan-axis0-of-2-int-slice", "tup:(tup:nan),(tup:int,int)", "tup:int,slice", [0])
